@@ -13,6 +13,55 @@ use std::process::{Command, Stdio};
 use std::time::{Duration, Instant};
 
 use engine::{Ctx, Report, ReplayFile, Tier, VERIF_ROOT};
+
+/// Exit code of a worker that ran out of memory (address-space limit or real
+/// exhaustion): an infrastructure problem, never a violation.
+const EXIT_OOM: i32 = 97;
+
+/// The system allocator, except that an allocation failure ends the process
+/// with a recognisable exit code instead of an abort signal.
+struct ExitOnOom;
+
+unsafe impl std::alloc::GlobalAlloc for ExitOnOom {
+    unsafe fn alloc(&self, layout: std::alloc::Layout) -> *mut u8 {
+        let p = unsafe { std::alloc::System.alloc(layout) };
+        if p.is_null() && layout.size() > 0 {
+            unsafe { libc::_exit(EXIT_OOM) };
+        }
+        p
+    }
+    unsafe fn dealloc(&self, ptr: *mut u8, layout: std::alloc::Layout) {
+        unsafe { std::alloc::System.dealloc(ptr, layout) }
+    }
+    unsafe fn alloc_zeroed(&self, layout: std::alloc::Layout) -> *mut u8 {
+        let p = unsafe { std::alloc::System.alloc_zeroed(layout) };
+        if p.is_null() && layout.size() > 0 {
+            unsafe { libc::_exit(EXIT_OOM) };
+        }
+        p
+    }
+    unsafe fn realloc(&self, ptr: *mut u8, layout: std::alloc::Layout, new_size: usize) -> *mut u8 {
+        let p = unsafe { std::alloc::System.realloc(ptr, layout, new_size) };
+        if p.is_null() && new_size > 0 {
+            unsafe { libc::_exit(EXIT_OOM) };
+        }
+        p
+    }
+}
+
+#[global_allocator]
+static ALLOC: ExitOnOom = ExitOnOom;
+
+/// Caps the address space of a worker so that a runaway case cannot take the machine down.
+fn limit_memory(gib: u64) {
+    let lim = libc::rlimit {
+        rlim_cur: gib << 30,
+        rlim_max: gib << 30,
+    };
+    unsafe {
+        libc::setrlimit(libc::RLIMIT_AS, &lim);
+    }
+}
 use serde_json::json;
 
 fn usage() -> ! {
@@ -72,6 +121,8 @@ fn main() {
             if let Some(j) = arg_value(&args, "--journal") {
                 engine::enable_journal(j.into());
             }
+            // The only check that needs more is C11's thorough 'more than i32::MAX pairs' case (8 GiB).
+            limit_memory(if id == "C11" && tier == Tier::Thorough { 24 } else { 6 });
             worker(&id, tier, seed, shard, of, &out);
         }
         "replay" => {
@@ -184,6 +235,7 @@ fn check(id: &str, tier: Tier, seed: u64) -> i32 {
                 Some(rep) => merged.merge(rep),
                 None => infra.push(format!("shard {shard}: no readable report")),
             },
+            Some(st) if st.code() == Some(EXIT_OOM) => infra.push(format!("shard {shard}: worker ran out of memory (address-space limit)")),
             Some(st) => {
                 use std::os::unix::process::ExitStatusExt;
                 match st.signal() {
